@@ -449,3 +449,215 @@ Theorem history_complete k v ops : length (run_model k v ops) = length ops.
 Proof.
   rewrite <- (map_length proj_obs), history_refines_spec. apply run_spec_length.
 Qed.
+
+(* ====================================================================== *)
+(* checkpointed histories                                                  *)
+(* ====================================================================== *)
+
+Lemma sl_runq_refines ops : forall m p xs,
+  srep m p xs -> map proj_qobs (runq_from sl_step sl_observe m ops) = runq_spec_from KS xs ops.
+Proof.
+  induction ops as [|[o|] ops IH]; intros m p xs R; [reflexivity| |].
+  - destruct (sl_step_refines _ _ _ o R) as (m' & p' & r & E & R' & Hr).
+    cbn [runq_from runq_spec_from]. rewrite E.
+    destruct (spec_step KS xs o) as [xs' r']. cbn [fst snd] in *.
+    cbn [map proj_qobs]. rewrite Hr. f_equal. eapply IH; eauto.
+  - cbn [runq_from runq_spec_from]. rewrite (sl_observe_rep _ _ _ R).
+    cbn [map proj_qobs]. f_equal. eapply IH; eauto.
+Qed.
+
+Lemma dl_runq_refines ops : forall m p xs,
+  drep m p xs -> map proj_qobs (runq_from dl_step dl_observe m ops) = runq_spec_from KD xs ops.
+Proof.
+  induction ops as [|[o|] ops IH]; intros m p xs R; [reflexivity| |].
+  - destruct (dl_step_refines _ _ _ o R) as (m' & p' & r & E & R' & Hr).
+    cbn [runq_from runq_spec_from]. rewrite E.
+    destruct (spec_step KD xs o) as [xs' r']. cbn [fst snd] in *.
+    cbn [map proj_qobs]. rewrite Hr. f_equal. eapply IH; eauto.
+  - cbn [runq_from runq_spec_from]. rewrite (dl_observe_rep _ _ _ R).
+    cbn [map proj_qobs]. f_equal. eapply IH; eauto.
+Qed.
+
+Theorem checkpointed_refines_spec k v ops :
+  map proj_qobs (runq_model k v ops) = runq_spec k v ops.
+Proof.
+  destruct k; unfold runq_model, runq_spec.
+  - eapply sl_runq_refines. apply sl_init_rep.
+  - eapply dl_runq_refines. apply dl_init_rep.
+Qed.
+
+(* what a checkpoint shows is the reference sequence reached by the calls
+   before it: looks change nothing *)
+Lemma runq_spec_looks k : forall ops xs,
+  Forall (fun o => match o with
+                   | QSeen vs fl => vs <> [] /\ fl = spec_fl k vs
+                   | QRes _ => True
+                   | _ => False
+                   end) (runq_spec_from k xs ops) \/ xs = [].
+Proof.
+  induction ops as [|[o|] ops IH]; intros xs; cbn [runq_spec_from].
+  - left; constructor.
+  - destruct xs as [|x xs0]; [right; reflexivity|].
+    pose proof (spec_step_nonempty k (x :: xs0) o ltac:(discriminate)) as Hne.
+    destruct (spec_step k (x :: xs0) o) as [xs' r]. cbn [fst] in Hne.
+    destruct (IH xs') as [H|H]; [|contradiction]. left. constructor; auto.
+  - destruct xs as [|x xs0]; [right; reflexivity|].
+    destruct (IH (x :: xs0)) as [H|H]; [|discriminate]. left. constructor; auto.
+    split; [discriminate|reflexivity].
+Qed.
+
+Lemma runq_spec_length k ops : forall xs, length (runq_spec_from k xs ops) = length ops.
+Proof.
+  induction ops as [|[o|] ops IH]; intros xs; cbn; [reflexivity| |].
+  - destruct (spec_step k xs o). cbn. now rewrite IH.
+  - now rewrite IH.
+Qed.
+
+Theorem checkpointed_complete k v ops : length (runq_model k v ops) = length ops.
+Proof.
+  rewrite <- (map_length proj_qobs), checkpointed_refines_spec. apply runq_spec_length.
+Qed.
+
+(* the sequence a checkpoint shows does not depend on where the earlier
+   checkpoints were: it is the reference sequence after the calls so far *)
+Lemma runq_spec_final k : forall ops xs,
+  runq_spec_from k xs (ops ++ [QLook]) =
+  runq_spec_from k xs ops ++
+  [let ys := fold_left (fun xs o => fst (spec_step k xs o)) (qops_ops ops) xs in QSeen ys (spec_fl k ys)].
+Proof.
+  induction ops as [|[o|] ops IH]; intros xs; cbn [app runq_spec_from qops_ops fold_left].
+  - reflexivity.
+  - destruct (spec_step k xs o) as [xs' r] eqn:E. cbn [fst]. rewrite IH. reflexivity.
+  - rewrite IH. reflexivity.
+Qed.
+
+(* ====================================================================== *)
+(* every step of the reference machine is an edit at ONE position          *)
+(* ====================================================================== *)
+
+(* xs' is xs with nothing done, one value put in at one place, one element
+   taken out, or one element's value changed; everything else keeps its
+   value, its multiplicity and its place *)
+Inductive one_edit (xs : list Z) : list Z -> Prop :=
+| oe_same : one_edit xs xs
+| oe_ins l1 l2 v : xs = l1 ++ l2 -> one_edit xs (l1 ++ v :: l2)
+| oe_del l1 x l2 : xs = l1 ++ x :: l2 -> one_edit xs (l1 ++ l2)
+| oe_set l1 x l2 v : xs = l1 ++ x :: l2 -> one_edit xs (l1 ++ v :: l2).
+
+Lemma in_mem_split a xs : mem_z a xs = true -> exists xs1 xs2, xs = xs1 ++ a :: xs2 /\ ~ In a xs1.
+Proof. intros H. apply mem_z_in in H. apply first_occ_exists in H. exact H. Qed.
+
+Lemma removelast_split (xs : list Z) : xs <> [] -> exists l x, xs = l ++ [x] /\ removelast xs = l.
+Proof.
+  intros H. destruct (exists_last H) as (l & x & ->). exists l, x. split; [reflexivity|].
+  apply removelast_last.
+Qed.
+
+Theorem spec_step_one_edit k xs o :
+  xs <> [] -> o <> Clear -> one_edit xs (fst (spec_step k xs o)).
+Proof.
+  intros Hx Hc. destruct o as [v|v|a v|a v|a v|a| | |a| | | ]; cbn [spec_step]; try congruence.
+  - apply (oe_ins xs [] xs v). reflexivity.
+  - rewrite <- (app_nil_r xs) at 1. apply (oe_ins _ xs [] v). now rewrite app_nil_r.
+  - destruct (mem_z a xs) eqn:Em; cbn [fst]; [|constructor].
+    destruct (in_mem_split _ _ Em) as (xs1 & xs2 & -> & Hn). rewrite ins_after_split by exact Hn.
+    replace (xs1 ++ a :: v :: xs2) with ((xs1 ++ [a]) ++ v :: xs2) by (rewrite <- app_assoc; reflexivity).
+    apply oe_ins. rewrite <- app_assoc. reflexivity.
+  - destruct k; cbn [fst]; [constructor|].
+    destruct (mem_z a xs) eqn:Em; cbn [fst]; [|constructor].
+    destruct (in_mem_split _ _ Em) as (xs1 & xs2 & -> & Hn). rewrite ins_before_split by exact Hn.
+    apply oe_ins. reflexivity.
+  - destruct (mem_z a xs) eqn:Em; cbn [fst]; [|constructor].
+    destruct (in_mem_split _ _ Em) as (xs1 & xs2 & -> & Hn). rewrite repl_first_split by exact Hn.
+    eapply oe_set. reflexivity.
+  - destruct (mem_z a xs) eqn:Em; cbn [fst]; [|constructor].
+    destruct (more_than_one xs); cbn [fst]; [|constructor].
+    destruct (in_mem_split _ _ Em) as (xs1 & xs2 & -> & Hn). rewrite remove_first_split by exact Hn.
+    eapply oe_del. reflexivity.
+  - destruct (more_than_one xs) eqn:Em; cbn [fst].
+    + destruct xs as [|x xs0]; [congruence|]. cbn [tl]. apply (oe_del _ [] x xs0). reflexivity.
+    + destruct k; cbn [fst]; [constructor|].
+      destruct xs as [|x [|y xs0]]; [congruence| |discriminate].
+      apply (oe_set _ [] x [] 0%Z). reflexivity.
+  - destruct (more_than_one xs) eqn:Em; cbn [fst]; [|constructor].
+    destruct (removelast_split xs Hx) as (l & x & E & ->).
+    rewrite <- (app_nil_r l). eapply oe_del. rewrite E. reflexivity.
+  - constructor.
+  - destruct k; constructor.
+  - destruct k; constructor.
+Qed.
+
+(* a handle obtained from Find is the address of a node that carries the value *)
+Lemma find_addr_load pf m a : forall p xs pv e h,
+  seg pf m pv p xs e -> find_addr a p xs = Some h -> exists nd, load m h = Some nd /\ val nd = a.
+Proof.
+  induction p as [|b p IH]; intros [|x xs] pv e h S E; cbn in S, E; try discriminate; try tauto.
+  destruct S as [L S]. destruct (x =? a)%Z eqn:Ex.
+  - injection E as <-. apply Z.eqb_eq in Ex. eexists; split; [exact L|]. exact Ex.
+  - eapply IH; eauto.
+Qed.
+
+(* Find in a state that represents xs: the heap is unchanged; a present value
+   always yields a handle, the handle is the address of a node carrying the
+   value; an absent value yields nil *)
+Lemma s_find_handle (m : mem) (xs : list Z) (a : Z) :
+  is_seq pf_s m xs ->
+  (In a xs -> exists h nd, sl_find m a = Done (m, Some h) /\ load m h = Some nd /\ val nd = a) /\
+  (~ In a xs -> sl_find m a = Done (m, None)).
+Proof.
+  intros [p R]. pose proof R as (_ & _ & S). pose proof (seg_length _ _ _ _ _ _ S) as Hl.
+  rewrite (sl_find_rep _ _ _ a R). split; intros H.
+  - destruct (find_addr a p xs) as [h|] eqn:E.
+    + destruct (find_addr_load _ _ _ _ _ _ _ _ S E) as (nd & L & V). eauto.
+    + apply find_addr_none in E; tauto.
+  - apply (find_addr_none a p xs Hl) in H. now rewrite H.
+Qed.
+
+Lemma d_find_handle (m : mem) (xs : list Z) (a : Z) :
+  is_seq pf_d m xs ->
+  (In a xs -> exists h nd, dl_find m a = Done (m, Some h) /\ load m h = Some nd /\ val nd = a) /\
+  (~ In a xs -> dl_find m a = Done (m, None)).
+Proof.
+  intros [p R]. pose proof R as (_ & _ & S). pose proof (seg_length _ _ _ _ _ _ S) as Hl.
+  rewrite (dl_find_rep _ _ _ a R). split; intros H.
+  - destruct (find_addr a p xs) as [h|] eqn:E.
+    + destruct (find_addr_load _ _ _ _ _ _ _ _ S E) as (nd & L & V). eauto.
+    + apply find_addr_none in E; tauto.
+  - apply (find_addr_none a p xs Hl) in H. now rewrite H.
+Qed.
+
+(* a checkpointed history never panics or hangs; every checkpoint shows a
+   non-empty sequence, with First/Last its two ends *)
+Definition qobs_fine (k : kind) (o : qobs) : Prop :=
+  match o with
+  | QSeen vs fl => vs <> [] /\ fl = spec_fl k vs
+  | QRes _ => True
+  | _ => False
+  end.
+
+Theorem checkpointed_only_steps k v ops : Forall (qobs_fine k) (runq_model k v ops).
+Proof.
+  destruct (runq_spec_looks k ops [v]) as [H|H]; [|discriminate].
+  change (runq_spec_from k [v] ops) with (runq_spec k v ops) in H.
+  rewrite <- checkpointed_refines_spec in H. apply Forall_map in H.
+  eapply Forall_impl; [|exact H]. intros [r|vs fl| |]; cbn; auto.
+Qed.
+
+(* the checkpoint after a history shows the reference machine's sequence after
+   the calls of that history, wherever the earlier checkpoints were *)
+Theorem checkpoint_shows_sequence_so_far k v ops :
+  map proj_qobs (runq_model k v (ops ++ [QLook])) =
+  map proj_qobs (runq_model k v ops) ++
+  [let ys := spec_final k v (qops_ops ops) in QSeen ys (spec_fl k ys)].
+Proof.
+  rewrite !checkpointed_refines_spec. unfold runq_spec, spec_final. apply runq_spec_final.
+Qed.
+
+(* between two consecutive states of any history exactly one position is
+   touched (Clear, which keeps the first element only, is the exception) *)
+Theorem history_one_edit k v ops o :
+  o <> Clear -> one_edit (spec_final k v ops) (spec_final k v (ops ++ [o])).
+Proof.
+  intros Hc. unfold spec_final. rewrite fold_left_app. cbn [fold_left].
+  apply spec_step_one_edit; [apply spec_final_nonempty | exact Hc].
+Qed.
